@@ -394,7 +394,7 @@ def execute_job(pt, model, job):
 # ---------------------------------------------------------------------------------------------
 # special programs (round 6): several NamedTuple classes sharing field names; one ComputedValue handle used twice
 # ---------------------------------------------------------------------------------------------
-SPECIAL_KINDS = ("multinamed", "handle")
+SPECIAL_KINDS = ("multinamed", "handle", "mixedsig")
 _mn_counter = [0]
 
 
@@ -412,6 +412,66 @@ def build_special(pt, job):
             return e.use(lambda x: logv(x))
         out = e.produced_type_spec().new_instance()
         return pt.Seq(e.store_into(out), logv(out))
+
+    if kind == "mixedsig":
+        # the decoded container(s) travel as ABI arguments through a signature that mixes parameter kinds:
+        # sig: list of "abi" | "expr" | "sv";  flavor "sub" (plain Subroutine, logs inside) | "abiret" (ABIReturnSubroutine)
+        t = job["t"]
+        spec = AB.to_pyteal(t)
+        et = C7.array_info(t)[0] if job["base"] == "array" else AB.children(t)[job["i"]]
+        sig = job["sig"]
+        names = ["p%d" % k for k in range(len(sig))]
+
+        def inner(*params, output=None):
+            idx = None
+            for kd, p_ in zip(sig, params):
+                if kd == "expr":
+                    idx = p_
+                elif kd == "sv":
+                    idx = p_.load()
+            if idx is None:
+                idx = pt.Btoi(A[1])
+            conts = [p_ for kd, p_ in zip(sig, params) if kd == "abi"]
+
+            def elem(c):
+                return c[idx] if job["base"] == "array" else c[job["i"]]
+            if output is None:
+                return pt.Seq(*[elem(c).use(lambda x: logv(x)) for c in conts])
+            return pt.Seq(*([elem(c).use(lambda x: logv(x)) for c in conts[1:]] + [elem(conts[0]).store_into(output)]))
+        ns = {}
+        if job["flavor"] == "abiret":
+            exec("def acc(%s, *, output):\n    return _f(%s, output=output)" % (", ".join(names), ", ".join(names)), {"_f": inner}, ns)
+        else:
+            exec("def acc(%s):\n    return _f(%s)" % (", ".join(names), ", ".join(names)), {"_f": inner}, ns)
+        acc = ns["acc"]
+        anns = {}
+        for n_, kd in zip(names, sig):
+            anns[n_] = spec.annotation_type() if kd == "abi" else (pt.Expr if kd == "expr" else pt.ScratchVar)
+        if job["flavor"] == "abiret":
+            anns["output"] = AB.to_pyteal(et).annotation_type()
+            acc.__annotations__ = anns
+            sub = pt.ABIReturnSubroutine(acc)
+        else:
+            anns["return"] = pt.Expr
+            acc.__annotations__ = anns
+            sub = pt.Subroutine(pt.TealType.none)(acc)
+        pre, actual, nabi = [], [], 0
+        for kd in sig:
+            if kd == "abi":
+                v = spec.new_instance()
+                pre.append(v.decode(A[0] if nabi == 0 else A[2]))
+                nabi += 1
+                actual.append(v)
+            elif kd == "expr":
+                actual.append(pt.Btoi(A[1]))
+            else:
+                sv = pt.ScratchVar(pt.TealType.uint64)
+                pre.append(sv.store(pt.Btoi(A[1])))
+                actual.append(sv)
+        call = sub(*actual)
+        if job["flavor"] == "abiret":
+            call = call.use(lambda x: logv(x))
+        return pt.Seq(*(pre + [call, pt.Approve()]))
 
     if kind == "multinamed":
         # classes: [{"names": [...], "ts": [...]}]; order: class numbers in instantiation order (repeats = throw-away
